@@ -35,6 +35,7 @@ class Program:
         s.exact = {}           # exact callee -> handler
         s.resolve_cache = {}
         s.pure = set()         # names of pure scalar predicates to summarise
+        s.promoted_cache = {}
         s.memo_str = set()     # pure crate functions of one &str whose result is memoised within a path (same text object)
         s.observers = {}       # MIR function name -> callback(it, args, result) (harness ghost state)
         s.sumcache = {}
@@ -129,7 +130,7 @@ class Program:
             for t in tys:
                 if trait:
                     tr = re.sub(r'\s', '', trait)
-                    tr = '::'.join(p for p in [tr.split('::')[-1]])
+                    tr = re.sub(r'^(?:\w+::)+(?=\w+(?:<|$))', '', tr)
                     s.index.setdefault('<%s%s as %s>::%s' % (amp, t, tr, meth), name)
                     s.index.setdefault('<%s%s as %s>::%s' % (amp, t, re.sub(r'<.*', '', tr), meth), name)
                 else:
@@ -235,6 +236,8 @@ class Interp:
             s.shared = None
             s.solver = z3.Solver()
         s.events = []           # keys of all constraint events of this run (see _flush)
+        s.pc = []               # every constraint of this path, in order (paranoid re-checks, summaries)
+        s.paranoid = False
         s.synced = False
         s.model = None          # a model of the current path condition, if known
         s.lazy = []             # constraints of the replayed prefix not yet asserted
@@ -268,6 +271,13 @@ class Interp:
         s.solver_time += time.time() - t
         if r == z3.unknown:
             raise Unsupported('solver returned unknown: ' + s.solver.reason_unknown())
+        if s.paranoid:
+            fs = z3.Solver()
+            fs.add(*s.pc)
+            if extra is not None: fs.add(extra)
+            r2 = fs.check()
+            if r2 != r:
+                raise Unsupported('PARANOID: incremental solver state disagrees with a fresh solver (%s vs %s)' % (r, r2))
         if r == z3.sat:
             try:
                 s.model = s.solver.model() if extra is None else None
@@ -290,6 +300,7 @@ class Interp:
     def _event(s, key, c):
         s.events.append(key)
         s.lazy.append(c)
+        if c is not None: s.pc.append(c)
 
     def _flush(s):
         """assert pending constraints.  With a reused solver (one push scope per constraint event) the scopes
@@ -330,6 +341,7 @@ class Interp:
     def _assert_now(s, key, c):
         """constraint of a fresh decision (solver already flushed)"""
         s.events.append(key)
+        s.pc.append(c)
         if s.reuse:
             s.solver.push()
             s.shared['trail'].append(key)
@@ -408,16 +420,14 @@ class Interp:
             return d
         s._flush()
         vals = []
-        s.solver.push()
+        excl = []
         while True:
-            if not s.check(): break
+            if not s.check(z3.And(excl) if excl else None): break
             c = s._last_model.eval(v, model_completion=True).as_long()
             vals.append(c)
             if len(vals) > limit:
-                s.solver.pop()
                 raise Unsupported('concretize: more than %d values for %s' % (limit, v))
-            s.solver.add(v != c)
-        s.solver.pop()
+            excl.append(v != c)
         s.model = None
         if not vals: raise Infeasible()
         vals.sort()
@@ -741,6 +751,20 @@ class Interp:
                 d = {'NAN': float('nan'), 'MAX': sys.float_info.max, 'MIN': -sys.float_info.max, 'INFINITY': float('inf'),
                      'NEG_INFINITY': float('-inf'), 'EPSILON': sys.float_info.epsilon}
                 if m.group(1) in d: return d[m.group(1)]
+            pm = re.fullmatch(r'(.*)::promoted\[(\d+)\]', n)
+            if pm:
+                fn = s.prog.promoted_cache.get(n)
+                if fn is None:
+                    base = norm_callee(pm.group(1))
+                    base = re.sub(r'::<[^<>]*(?:<[^<>]*>[^<>]*)*>', '', base)
+                    f0 = s.prog.resolve_crate(base)
+                    fn = '%s::promoted[%s]' % (f0, pm.group(2)) if f0 else None
+                    if fn not in s.funcs:
+                        cands = [k for k in s.funcs if k.endswith('::promoted[%s]' % pm.group(2)) and k.rsplit('::', 2)[-2] == base.split('::')[-1]]
+                        fn = cands[0] if len(cands) == 1 else None
+                    s.prog.promoted_cache[n] = fn or ''
+                if not fn: raise Unsupported('promoted constant ' + n)
+                return s.call(fn, [])
             return Agg('fnitem', None, [n])
         raise Unsupported('const %r' % (c,))
 
@@ -1130,7 +1154,7 @@ class Interp:
             try:
                 r = sub.call(name, args)
                 sub._flush()
-                pc = z3.And(list(sub.solver.assertions()) + [z3.BoolVal(True)])
+                pc = z3.And(list(sub.pc) + [z3.BoolVal(True)])
                 res.append((pc, r))
             except Infeasible:
                 pass
